@@ -201,15 +201,15 @@ def _replace_statement(body, needle, rep, fname):
 
 
 
-def _lift_retain(body, sig, needle, name, container, extra, pre, post, fname):
-    """Rule 14. Returns (new_body, lifted_fn_text_without_clauses(header, body), info)."""
+def _lift_retain(body, sig, needle, name, container, extra, pre, post, fname, inv=(), search_from=0):
+    """Rule 14. Returns (new_body, header, closure body, info, resume position) or None when no further statement matches."""
     rx = re.compile(r'\s*'.join(re.escape(tok) for tok in needle.split()))
     start = None
-    for j, d in rc.code_positions(body):
+    for j, d in rc.code_positions(body, search_from):
         if rx.match(body, j) and (j == 0 or not (body[j - 1].isalnum() or body[j - 1] == '_')):
             start = j; break
     if start is None:
-        raise CutError('fn %s: retain statement not found: %s' % (fname, needle))
+        return None
     depth, end = 0, None
     for k, d in rc.code_positions(body, start):
         c = body[k]
@@ -220,46 +220,43 @@ def _lift_retain(body, sig, needle, name, container, extra, pre, post, fname):
     if end is None:
         raise CutError('fn %s: end of retain statement not found' % fname)
     stmt = body[start:end + 1]
-    m = re.match(r'(?s)\s*([A-Za-z_][A-Za-z0-9_]*)\s*\.\s*retain\s*\(\s*\|\s*([A-Za-z_][A-Za-z0-9_]*)\s*\|\s*\{', stmt)
+    m = re.match(r'(?s)\s*([A-Za-z_][A-Za-z0-9_]*)\s*\.\s*retain\s*\(\s*\|\s*([A-Za-z_][A-Za-z0-9_]*)\s*\|', stmt)
     if not m:
-        raise CutError('fn %s: retain statement is not `RECV.retain(|x| { .. });`' % fname)
+        raise CutError('fn %s: retain statement is not `RECV.retain(|x| ..);`' % fname)
     recv, pat = m.group(1), m.group(2)
-    ob = m.end() - 1
-    cb = rc.match_close(stmt, ob)
-    if not re.match(r'(?s)\s*\)\s*;\s*$', stmt[cb + 1:]):
-        raise CutError('fn %s: retain statement has text after the closure' % fname)
-    cbody = stmt[ob:cb + 1]
+    rest = stmt[m.end():]
+    if rest.lstrip().startswith('{'):
+        ob = m.end() + (len(rest) - len(rest.lstrip()))
+        cb = rc.match_close(stmt, ob)
+        if not re.match(r'(?s)\s*\)\s*;\s*$', stmt[cb + 1:]):
+            raise CutError('fn %s: retain statement has text after the closure' % fname)
+        cbody = stmt[ob:cb + 1]
+    else:
+        # expression closure `|x| EXPR`: the body is the expression (wrapped in braces, nothing else added)
+        mm = re.match(r'(?s)(.*)\)\s*;\s*$', rest)
+        if not mm:
+            raise CutError('fn %s: retain statement is not `RECV.retain(|x| EXPR);`' % fname)
+        cbody = '{ ' + mm.group(1).strip() + ' }'
     # capture candidates: parameters of the enclosing fn, bool-literal locals, listed locals
-    cands = []
+    cands, forced = [], []
     po = sig.index('(')
     pc = rc.match_close(sig, po, '(', ')')
-    depth, cur = 0, ''
-    for ch in sig[po + 1:pc] + ',':
-        if ch in '([<{': depth += 1
-        elif ch in ')]>}': depth -= 1
-        if ch == ',' and depth == 0:
-            if ':' in cur:
-                nm, ty = cur.split(':', 1)
-                nm = nm.strip()
-                if nm.startswith('mut '): nm = nm[4:].strip()
-                if re.match(r'^[A-Za-z_][A-Za-z0-9_]*$', nm):
-                    cands.append((nm, ty.strip()))
-            cur = ''
-        else:
-            cur += ch
+    for prm in _split_top(sig[po + 1:pc]):
+        if ':' in prm:
+            nm, ty = prm.split(':', 1)
+            nm = nm.strip()
+            if nm.startswith('mut '): nm = nm[4:].strip()
+            if re.match(r'^[A-Za-z_][A-Za-z0-9_]*$', nm):
+                cands.append((nm, ty.strip()))
+                if ty.strip().startswith('&mut'):
+                    forced.append(nm)   # exclusive borrows are always handed on (a closure that ignores them leaves them unchanged)
     for mm in re.finditer(r'\blet\s+(?:mut\s+)?([A-Za-z_][A-Za-z0-9_]*)\s*=\s*(true|false)\s*;', body[:start]):
         cands.append((mm.group(1), 'bool'))
     for item in [x for x in extra.split(',') if x.strip()]:
         nm, ty = item.split(':', 1)
         cands.append((nm.strip(), ty.strip()))
-    caps, seen = [], set()
-    code = set(j for j, d in rc.code_positions(cbody))
-    for nm, ty in cands:
-        if nm in seen or nm == pat:
-            continue
-        for mm in re.finditer(r'(?<![A-Za-z0-9_.])' + re.escape(nm) + r'(?![A-Za-z0-9_])', cbody):
-            if mm.start() in code:
-                caps.append((nm, ty)); seen.add(nm); break
+    free = _free_captures(cbody, cands, [pat])
+    caps = [c for c in cands if c[0] in forced] + [c for c in free if c[0] not in forced]
     elem = re.search(r'<(.*)>\s*$', container).group(1)
     params = ', '.join(['%s: %s' % c for c in caps] + ['%s: &%s' % (pat, elem)])
     args = ', '.join([c[0] for c in caps] + [pat])
@@ -267,14 +264,16 @@ def _lift_retain(body, sig, needle, name, container, extra, pre, post, fname):
     ind = '\n    '
     loop = ('let mut verif_kept: %s = %s::new();' % (container, re.sub(r'<.*$', '', container)) + ind
             + ''.join(l + ind for l in pre)
-            + 'for %s in verif_it: %s.iter()' % (pat, recv) + ind + '{' + ind
+            + 'for %s in verif_it: %s.iter()' % (pat, recv) + ind
+            + ('    invariant ' + ' '.join(x.strip() for x in inv) + ind if inv else '')
+            + '{' + ind
             + '    if %s(%s) { verif_kept.push_back(*%s); }' % (name, args, pat) + ind
             + ''.join('    ' + l + ind for l in post)
             + '}' + ind + '%s = verif_kept;' % recv)
     info = {'fn': fname, 'lifted': name, 'captures': ['%s: %s' % c for c in caps], 'closure_sha256': hashlib.sha256(cbody.encode()).hexdigest()[:16],
             'statement_head': re.sub(r'\s+', ' ', stmt)[:100],
             'assumed': 'std retain(f): every element visited exactly once, front to back; kept iff f returns true; order of kept elements preserved'}
-    return body[:start] + loop + body[end + 1:], header, cbody, info
+    return body[:start] + loop + body[end + 1:], header, cbody, info, start + len(loop)
 
 
 def _okmap(body, needle, fname):
@@ -609,10 +608,10 @@ def expand(template_path, repo='/repo'):
                     lifts[-1]['inv'].append(t[len('//@lift.inv|'):].strip())
                 elif t.startswith('//@liftscope'):
                     nd, nm, extra = [x.strip() for x in t[len('//@liftscope'):].split('|', 2)]
-                    lifts.append({'kind': 'scope', 'needle': nd, 'name': nm, 'extra': extra, 'clauses': [], 'pre': [], 'post': []})
+                    lifts.append({'kind': 'scope', 'needle': nd, 'name': nm, 'extra': extra, 'clauses': [], 'pre': [], 'post': [], 'inv': []})
                 elif t.startswith('//@liftretain'):
                     nd, nm, cont, extra = [x.strip() for x in t[len('//@liftretain'):].split('|', 3)]
-                    lifts.append({'needle': nd, 'name': nm, 'container': cont, 'extra': extra, 'clauses': [], 'pre': [], 'post': []})
+                    lifts.append({'needle': nd, 'name': nm, 'container': cont, 'extra': extra, 'clauses': [], 'pre': [], 'post': [], 'inv': []})
                 elif t.startswith('//@lift.pre'):
                     lifts[-1]['pre'].append(t.split('|', 1)[1].strip())
                 elif t.startswith('//@lift.post'):
@@ -690,22 +689,6 @@ def expand(template_path, repo='/repo'):
                     side.setdefault('normalized_statements', []).append(oinfo)
                 else:
                     side.setdefault('skipped_normalizations', []).append('%s: okmap %s (statement not present in this form)' % (name, nd))
-            for lf in lifts:
-                if lf.get('kind') == 'position':
-                    body, texts, linfo = _lift_position(body, sig, lf['needle'], lf['name'], lf['elem'], lf['extra'], lf['clauses'], lf['pred'], lf['inv'], name, anchor != '-', lf.get('found', []), lf.get('none', []))
-                    lifted_out += texts
-                    linfo['clauses'] = [c.strip() for c in lf['clauses'] + lf['pred']]
-                    linfo['file'] = f
-                    side.setdefault('lifted_closures', []).append(linfo)
-                    continue
-                if lf.get('kind') == 'scope':
-                    body, lh, lb, linfo = _lift_scope(body, sig, lf['needle'], lf['name'], lf['extra'], name)
-                else:
-                    body, lh, lb, linfo = _lift_retain(body, sig, lf['needle'], lf['name'], lf['container'], lf['extra'], lf['pre'], lf['post'], name)
-                lifted_out.append('    #[verifier::exec_allows_no_decreases_clause]\n    ' + lh + '\n' + '\n'.join(lf['clauses']) + '\n    ' + lb)
-                linfo['clauses'] = [c.strip() for c in lf['clauses']]
-                linfo['file'] = f
-                side.setdefault('lifted_closures', []).append(linfo)
             for ordinal in c2e:
                 body = _continue_to_else(body, ordinal, name)
                 side.setdefault('normalized_loops', []).append('%s: loop %d: `if C { continue; } REST` -> `if C {} else { REST }`' % (name, ordinal))
@@ -722,6 +705,34 @@ def expand(template_path, repo='/repo'):
                 ob = lb[ordinal - 1][1]
                 body = body[:ob + 1] + '\n' + '\n'.join(loopbodies[ordinal]) + body[ob + 1:]
             body = _insert_loop_invariants(body, loops, name, loopvars)
+            for lf in lifts:
+                if lf.get('kind') == 'position':
+                    body, texts, linfo = _lift_position(body, sig, lf['needle'], lf['name'], lf['elem'], lf['extra'], lf['clauses'], lf['pred'], lf['inv'], name, anchor != '-', lf.get('found', []), lf.get('none', []))
+                    lifted_out += texts
+                    linfo['clauses'] = [c.strip() for c in lf['clauses'] + lf['pred']]
+                    linfo['file'] = f
+                    side.setdefault('lifted_closures', []).append(linfo)
+                    continue
+                if lf.get('kind') == 'scope':
+                    body, lh, lb, linfo = _lift_scope(body, sig, lf['needle'], lf['name'], lf['extra'], name)
+                    found = [(lh, lb, linfo)]
+                else:
+                    # every statement `RECV.retain(..)` that starts with the needle is lifted, each under the SAME contract
+                    found, pos, k = [], 0, 0
+                    while True:
+                        nm_k = lf['name'] if k == 0 else '%s_%d' % (lf['name'], k + 1)
+                        r = _lift_retain(body, sig, lf['needle'], nm_k, lf['container'], lf['extra'], lf['pre'], lf['post'], name, lf.get('inv', []), pos)
+                        if r is None:
+                            break
+                        body, lh, lb, linfo, pos = r
+                        found.append((lh, lb, linfo)); k += 1
+                    if not found:
+                        raise CutError('fn %s: retain statement not found: %s' % (name, lf['needle']))
+                for lh, lb, linfo in found:
+                    lifted_out.append('    #[verifier::exec_allows_no_decreases_clause]\n    ' + lh + '\n' + '\n'.join(lf['clauses']) + '\n    ' + lb)
+                    linfo['clauses'] = [c.strip() for c in lf['clauses']]
+                    linfo['file'] = f
+                    side.setdefault('lifted_closures', []).append(linfo)
             for needle, txt in befores:
                 rxn = re.compile(r'\s*'.join(re.escape(tok) for tok in needle.split()))
                 pos = None
